@@ -58,7 +58,9 @@ func LoadProg(repo, verifDir string, pkgPaths []string, overlay map[string][]byt
 	if err != nil {
 		return nil, err
 	}
-	p := &Prog{fset: fset, pkgs: map[string]*packages.Package{}, ssaPkgs: map[string]*ssa.Package{}, db: NewContractDB(),
+	cdb := NewContractDB()
+	cdb.Overlay = overlay
+	p := &Prog{fset: fset, pkgs: map[string]*packages.Package{}, ssaPkgs: map[string]*ssa.Package{}, db: cdb,
 		sorts: NewSorts(), repo: repo, verifDir: verifDir, funcs: map[string]*ssa.Function{}, constGl: map[*ssa.Global]bool{}, stored: map[*ssa.Global]bool{}, mirror: map[string]string{}}
 	packages.Visit(initial, nil, func(pk *packages.Package) {
 		p.pkgs[pk.PkgPath] = pk
